@@ -174,7 +174,7 @@ pub fn def() -> PropertyDef {
             "delta-min prefixes are non-empty, non-decreasing and end with a positive distance (an all-zero prefix denotes an unbounded burst)".into(),
             "Periodic means exactly periodic releases with an arbitrary phase".into(),
         ],
-        subchecks: vec![subcheck("sequences", (2500, 60_000), strategy, check)],
+        subchecks: vec![subcheck("sequences", (12_000, 200_000), strategy, check)],
         extra: None,
     }
 }
